@@ -1,6 +1,6 @@
 # p_syntax engine: C01 C02 C03 C05 C43
 PROPS = {
-    "C01": dict(fuzz_target="FuzzC01", fuzz_s=240, 
+    "C01": dict(fuzz_target="FuzzC01", fuzz_s=240, technique="property-based testing (rapid) with explicit oracle; the thorough tier adds a coverage-guided stage (Go native fuzzing driving the same check; failing inputs are saved as replay files)", 
         engine="p_syntax", quick_checks=200000, thorough_checks=3000000, quick_shards=14, thorough_shards=16,
         rule="inputs: hostile byte constants (unterminated openers, nest runs up to 20k, BOMs, invalid UTF-8, long keys), every .d2 file / "
              "txtar section / test-table literal of the repo (also re-encoded as UTF-16LE+BOM), then rapid: raw bytes, syntax-biased runes, "
@@ -8,7 +8,7 @@ PROPS = {
              "ParseValue. non-trivial = Parse produced more than the root node or at least one error; distinct by SHA-256 of the case.",
         assumptions=["a per-case watchdog of 20 s stands in for 'terminates' (typical cost is microseconds)"],
     ),
-    "C02": dict(fuzz_target="FuzzC02", fuzz_s=240, 
+    "C02": dict(fuzz_target="FuzzC02", fuzz_s=240, technique="property-based testing (rapid) with explicit oracle; the thorough tier adds a coverage-guided stage (Go native fuzzing driving the same check; failing inputs are saved as replay files)", 
         engine="p_syntax", quick_checks=100000, thorough_checks=2000000, quick_shards=14, thorough_shards=16,
         rule="inputs: snippets, every repo .d2 file/txtar section, hostile constants, then rapid grammar text with multi-byte/astral/tab/CRLF "
              "splices, token mutations (valid and invalid UTF-8), hostile names; each in UTF-8 and UTF-16 position mode and additionally as "
@@ -25,7 +25,7 @@ PROPS = {
              "keyword or number spelling.",
         assumptions=["edits refused with an error are legal outcomes (counted as set_refused / rename_refused)"],
     ),
-    "C03": dict(fuzz_target="FuzzC03", fuzz_s=240, 
+    "C03": dict(fuzz_target="FuzzC03", fuzz_s=240, technique="property-based testing (rapid) with explicit oracle; the thorough tier adds a coverage-guided stage (Go native fuzzing driving the same check; failing inputs are saved as replay files)", 
         engine="p_syntax", quick_checks=100000, thorough_checks=2000000, quick_shards=14, thorough_shards=16,
         rule="inputs: all repo .d2 files, txtar sections and test-table literals, snippets per construct, then rapid grammar text (comments, block "
              "strings, boards, imports, globs, substitutions, edge groups, arrays), lightly mutated text and hostile-name pairs; inputs with parse "
